@@ -259,6 +259,9 @@ def run(prog, rep):
                     # operator calls carry the callee reference first
                     e = cs[1] if e['k'] == 'CXXOperatorCallExpr' and len(cs) > 1 else cs[0]
                     continue
+                if e['k'] == 'CallExpr' and (fn.callee(e) or {}).get('repo') and len(e.get('c', [])) == 2 and e.get('lv'):
+                    e = e['c'][1]       # a library accessor that hands out a reference into its argument (GetBaseContainer(cont))
+                    continue
                 return None
             return None
 
